@@ -285,13 +285,27 @@ NEG = {"==": "!=", "!=": "==", "<": ">=", ">=": "<", ">": "<=", "<=": ">"}
 SWAP = {"==": "==", "!=": "!=", "<": ">", ">": "<", "<=": ">=", ">=": "<="}
 
 
+def _constlike(e):
+    return e is not None and (e.get("k") in ("int", "enum") or (e.get("k") == "sizeof"))
+
+
 def norm_cmp(c, pol):
     """normalise an atomic condition to (op, lhs_tree, rhs_tree) that HOLDS, or
     ('truth'|'false', tree, None) for plain truth tests."""
     c = strip(c)
     if c.get("k") == "bin" and c["op"] in NEG:
         op = c["op"] if pol else NEG[c["op"]]
-        return (op, c["l"], c["r"])
+        l, r = c["l"], c["r"]
+        ls, rs = strip(l), strip(r)
+        # spelling does not matter: a constant on the left is moved to the right, and a comparison with the boolean enumerators is the
+        # plain truth test it stands for (`f() == ARES_FALSE` is `!f()`)
+        if _constlike(ls) and not _constlike(rs):
+            l, r, op = r, l, SWAP[op]
+            ls, rs = rs, ls
+        if rs is not None and rs.get("k") == "enum" and rs.get("n") in ("ARES_FALSE", "ARES_TRUE") and op in ("==", "!="):
+            truth = (rs["n"] == "ARES_TRUE") == (op == "==")
+            return ("truth" if truth else "false", l, None)
+        return (op, l, r)
     return ("truth" if pol else "false", c, None)
 
 
